@@ -1297,6 +1297,122 @@ def search_zero_points(ctx):
     ctx.extra['zero_point_search'] = {'configurations': n}
 
 
+# ============================================================================ search(): public call forms around the core (API audit)
+
+API_COVERAGE = [
+    # (callable, covered before the audit, now, note)
+    ('MeshTri1/MeshTet1/MeshQuad1/MeshHex1/MeshWedge1/MeshLine1.element_finder', True, True, 'core: witnesses, correspondence, exact search'),
+    ('CellBasis.probes / interpolator / point_source', True, True, 'core'),
+    ('MappingAffine.F / invF / detDF / invDF, MappingIsoparametric.F / invF / J / invDF / detDF', True, True, 'via finder / probes'),
+    ('MeshTri1.init_symmetric / init_sqsymmetric / init_lshaped / init_circle, MeshTet1.init_ball, MeshLine1.init_tensor, '
+     'MeshLine1.__mul__ (-> MeshQuad1), MeshTri1.__mul__ (-> MeshWedge1)', False, True,
+     'finder on the meshes of the library constructors: every vertex / facet / interior / outside point kind, exact containment'),
+    ('CellBasis.with_element', False, True, 'probes of b.with_element(e2) == probes of Basis(mesh, e2)'),
+    ('CellBasis.with_elements', False, True, 'probes of b.with_elements(subset) == probes of the whole-mesh basis on the subset, error outside'),
+    ('CellBasis.project(interpolator) / AbstractBasis.project', False, True,
+     'b.project(b.interpolator(y)) == y and projection of a P1 / Q1 function into the richer space is reproduced pointwise (quadrature points with trailing axes)'),
+    ('CellBasis.refinterp', False, True, 'for P1 / Q1 functions: mean of the refined values over a sub-cell == interpolator(y) at the sub-cell centre'),
+    ('Mesh.element_finder (base class), MeshDG.element_finder, second-order meshes', False, True,
+     'raise NotImplementedError (no cell is returned): checked that they raise'),
+    ('CellBasis.boundary / FacetBasis.trace / Mesh.trace', False, False, 'out of scope: no point location or point evaluation (C15 covers operand / history aspects)'),
+    ('MappingIsoparametric.DF / bndmap / bndJ / G / detDG / normals', False, False, 'out of scope: facet maps and Jacobians are C10'),
+    ('Mesh2D/Mesh3D.param(s), edges_satisfying, interior_edges; AbstractBasis.get_dofs / complement_dofs / zeros / ones / plot / draw', False, False,
+     'out of scope for C14 (C07 / C11 / visualisation)'),
+]
+
+
+def search_api(ctx):
+    import skfem
+    rng = ctx.rng
+    stats = {'points': 0, 'raised_on_mesh': 0, 'f11': 0, 'f11_interior_of_nonsimplex_cell': 0, 'batches': 0}
+    # ---- finders on the meshes of the library's own constructors
+    meshes = [('init_symmetric', skfem.MeshTri.init_symmetric()), ('init_sqsymmetric', skfem.MeshTri.init_sqsymmetric().refined(1)),
+              ('init_lshaped', skfem.MeshTri.init_lshaped().refined(1)), ('init_circle', skfem.MeshTri.init_circle(2)),
+              ('init_ball', skfem.MeshTet.init_ball(1)), ('MeshLine.init_tensor', skfem.MeshLine.init_tensor(np.array([0., 0.25, 1.0, 1.5]))),
+              ('MeshLine*MeshLine', skfem.MeshLine(np.array([0., 0.5, 2.0])) * skfem.MeshLine(np.array([0., 1.0, 1.5]))),
+              ('MeshTri*MeshLine', skfem.MeshTri.init_sqsymmetric() * skfem.MeshLine(np.array([0., 0.5, 1.0])))]
+    for label, m in meshes:
+        check_finder_mesh(ctx, m, 'api:' + label, rng, ctx.n(4, 10), stats)
+    # ---- classes without a finder must raise, not return something
+    for label, m in (('MeshTri2', skfem.MeshTri2.init_circle(1)), ('MeshQuad2', skfem.MeshQuad2()),
+                     ('MeshQuad1DG', skfem.MeshQuad1DG.periodic(skfem.MeshQuad().refined(1), [0], [2]) if hasattr(skfem, 'MeshQuad1DG') else None)):
+        if m is None:
+            continue
+        try:
+            r = m.element_finder()(*np.full((m.p.shape[0], 1), 0.3))
+            ctx.count(('api-nofinder', label), nontrivial=True)
+            # a class that does provide a finder must return a cell containing the point: only first-order affine checks here
+            if not (np.asarray(r).shape == (1,)):
+                ctx.fail(f'finder:{label}:unexpected-result', f'{label}.element_finder returned {r!r}', {'mesh_class': label, 'site': 'api'})
+        except NotImplementedError:
+            ctx.count(('api-nofinder', label), nontrivial=True)
+        except Exception as ex:      # noqa: BLE001
+            ctx.hist('api_nofinder_raises', f'{label}:{type(ex).__name__}')
+    # ---- thin wrappers of CellBasis
+    worst = 0.0
+    for fam, e1, e2 in (('tri', 'ElementTriP1', 'ElementTriP2'), ('quad', 'ElementQuad1', 'ElementQuad2'), ('tet', 'ElementTetP1', 'ElementTetP2'),
+                        ('line', 'ElementLineP1', 'ElementLineP2'), ('tri', 'ElementTriP2', 'ElementVector:ElementTriP1')):
+        m = line_mesh(rng, 6) if fam == 'line' else tensor_mesh(rng, fam, shear=False)
+        b1 = skfem.Basis(m, make_elem(e1))
+        pool = [x for _, x in mesh_points(m, rng, kinds=('interior',), per_kind=8)]
+        x = np.array([fl(q) for q in [rng.choice(pool) for _ in range(5)]]).T
+        data = {'mesh_class': type(m).__name__, 'p': m.p.tolist(), 't': m.t.tolist(), 'element': e1, 'element2': e2, 'points': x.tolist(), 'site': 'api'}
+        key = f'{e1}->{e2}:{type(m).__name__}'
+        ctx.count(('api-wrappers', key, x.tobytes()), nontrivial=True)
+        try:
+            # with_element
+            bw = b1.with_element(make_elem(e2))
+            bd = skfem.Basis(m, make_elem(e2), intorder=None)
+            yw = np.cos(0.3 * np.arange(bd.N))
+            d = float(np.max(np.abs(bw.probes(x) @ yw - bd.probes(x) @ yw)))
+            worst = max(worst, d)
+            if bw.N != bd.N or d > 1e-11:
+                ctx.fail(f'probes:with_element:{key}', f'probes of basis.with_element({e2}) differ from Basis(mesh, {e2}) by {d:.2e}', data)
+            # with_elements
+            cells = [int(c) for c in m.element_finder()(*x)]
+            sub = sorted(set(cells) | {0})
+            bs_ = b1.with_elements(np.array(sub))
+            y1 = np.cos(0.3 * np.arange(b1.N))
+            d = float(np.max(np.abs(bs_.probes(x) @ y1 - b1.probes(x) @ y1)))
+            worst = max(worst, d)
+            if d > 1e-11:
+                ctx.fail(f'probes:with_elements:{key}', f'probes of basis.with_elements({sub}) differ from the whole-mesh basis by {d:.2e}', dict(data, elements=sub))
+            # project(interpolator): identity on the same basis; a function of the poorer space is reproduced in the richer one
+            if not e2.startswith('ElementVector'):
+                yp = b1.project(b1.interpolator(y1))
+                d = float(np.max(np.abs(yp - y1)))
+                worst = max(worst, d)
+                if d > 1e-9:
+                    ctx.fail(f'project:interpolator:{key}', f'basis.project(basis.interpolator(y)) differs from y by {d:.2e}', data)
+                y2 = bd.project(b1.interpolator(y1))
+                d = float(np.max(np.abs(bd.interpolator(y2)(x) - b1.interpolator(y1)(x))))
+                worst = max(worst, d)
+                if d > 1e-9:
+                    ctx.fail(f'project:interpolator-into-richer-space:{key}', f'projection of a {e1} function into the {e2} space is not reproduced at '
+                             f'the query points ({d:.2e})', data)
+            # refinterp: for a (multi)linear function the mean of the refined values over a sub-cell is the function at its centre
+            if e1 in ('ElementTriP1', 'ElementQuad1', 'ElementTetP1'):
+                M, w = b1.refinterp(y1, nrefs=1)
+                sel = list(range(0, M.t.shape[1], max(1, M.t.shape[1] // 6)))[:6]
+                cen = M.p[:, M.t[:, sel]].mean(axis=1)
+                vr = w[M.t[:, sel]].mean(axis=0)
+                vi = b1.interpolator(y1)(cen)
+                d = float(np.max(np.abs(vi - vr)))
+                worst = max(worst, d)
+                if d > 1e-10:
+                    ctx.fail(f'refinterp:{key}', f'refinterp values differ from interpolator at the sub-cell centres by {d:.2e}', data)
+        except Exception as ex:      # noqa: BLE001 - valid public call forms on interior points
+            if isinstance(ex, ValueError) and 'outside' in str(ex):
+                bad = [tuple(Fr(float(v)) for v in x[:, c_]) for c_ in range(x.shape[1]) if run_finder(m, [tuple(Fr(float(v)) for v in x[:, c_])])[0] == 'raises']
+                if bad and all(raise_class(m, q)[0] == 'f11' for q in bad):
+                    ctx.fail(F11_KEY, F11_TEXT + ' (API wrappers)', data)
+                    continue
+            ctx.fail(f'api:{key}:exception', f'with_element / with_elements / project / refinterp raised {type(ex).__name__}: {ex}', data)
+    stats['wrappers_max_discrepancy'] = worst
+    ctx.extra['api_search'] = stats
+    ctx.extra['api_coverage'] = [{'callable': a, 'covered_before': b, 'covered_now': c, 'note': d} for a, b, c, d in API_COVERAGE]
+
+
 def replay(ctx, data):
     import skfem
     inp = data['input']
@@ -1400,3 +1516,4 @@ def replay(ctx, data):
         search_probes(ctx)
         search_probes_general(ctx)
         search_probes_restricted(ctx)
+        search_api(ctx)
